@@ -18,6 +18,11 @@ import time
 from .common import HarnessError, repo_src
 
 
+class SimDeadlock(BaseException):
+    """A blocking acquire that can never succeed: the lock is held and no other thread exists that could release it
+    (single-threaded harness context). BaseException so that it is never mistaken for an error raised by the program."""
+
+
 class Abort(BaseException):
     """Unwinds a simulated thread (step cap, deadlock, teardown). Never a program-visible error."""
 
@@ -26,6 +31,7 @@ NEW, RUNNABLE, BLOCKED, DONE = "new", "runnable", "blocked", "done"
 FAIRNESS_BOUND = 300_000     # consecutive yield points one thread may run while others are runnable
 
 _ACTIVE = None          # the Scheduler currently running (one per process at a time)
+SINGLE_THREADED = True  # outside a simulation the harness processes have exactly one thread
 _real_allocate = _thread.allocate_lock
 
 
@@ -55,7 +61,13 @@ class SimLock:
             if self._reentrant and self._owner == _thread.get_ident():
                 self._count += 1
                 return True
-            ok = self._real.acquire(blocking, timeout)
+            ok = self._real.acquire(False)
+            if not ok:
+                if not blocking or (timeout is not None and timeout >= 0):
+                    return False              # a timed acquire gives up (no other thread will ever release it)
+                if SINGLE_THREADED:
+                    raise SimDeadlock("blocking acquire of a lock that is held, with no other thread to release it")
+                ok = self._real.acquire(blocking, timeout)
             if ok:
                 self._owner = _thread.get_ident()
                 self._count = 1
@@ -152,7 +164,7 @@ def install_locks():
 # frame classification
 # ---------------------------------------------------------------------------
 class FrameClasses:
-    """0 = not a pre-emption frame, 1 = line granularity, 2 = opcode granularity."""
+    """0 = not a pre-emption frame, 1 = line granularity, 2 = opcode granularity, 5 = generated code (line granularity, hot)."""
 
     def __init__(self):
         self.pkg = os.path.join(repo_src(), "pyab_experiment") + os.sep
@@ -165,7 +177,7 @@ class FrameClasses:
         if r is None:
             fn = code.co_filename
             if fn == "<string>":
-                cls = 1
+                cls = 5                      # generated code: few lines per call, each one a "hot" line point
             elif fn.startswith(self.pkg):
                 base = os.path.basename(fn)
                 cls = 2 if base in ("experiment_evaluator.py", "wraper_functions.py") else 1
@@ -185,6 +197,7 @@ class FrameClasses:
 HOT_FILES = ("experiment_evaluator.py", "wraper_functions.py")
 _HOT_TOOL = 4
 _hot_installed = []
+HOT_COUNT = [0]
 
 
 def _code_objects_of(module, filename):
@@ -244,6 +257,7 @@ def install_hot_instrumentation(fc):
     def on_instruction(code, offset):
         s = _ACTIVE
         if s is None:
+            HOT_COUNT[0] += 1          # sequential phases: lets the harness measure how many hot points an operation has
             return
         t = s.by_ident.get(get_ident())
         if t is None:
@@ -284,13 +298,13 @@ class BernoulliChooser:
 
     def __init__(self, rng, p_line, p_hot, p_boundary=0.3):
         self.rng = rng
-        self.p = {1: p_line, 2: p_hot, 3: p_boundary, 4: 1.0}
+        self.p = {1: p_line, 2: p_hot, 3: p_boundary, 4: 1.0, 5: p_hot}
 
     def arm(self, sched, cls):
         sched.next_at[cls] = sched.cnt[cls] + _geometric(self.rng, self.p[cls])
 
     def start(self, sched):
-        for cls in (1, 2, 3, 4):
+        for cls in (1, 2, 3, 4, 5):
             self.arm(sched, cls)
 
     def pick(self, sched, t, cls):
@@ -302,6 +316,81 @@ class BernoulliChooser:
 
     def pick_forced(self, sched, runnable):
         return runnable[self.rng.randrange(len(runnable))]
+
+
+class ParkChooser(BernoulliChooser):
+    """Delay injection: one PRNG-chosen 'victim' thread is parked at its k-th hot point (an instruction of the
+    publish / check-then-act code, or a line of generated code) and stays parked until other threads have completed
+    `need` whole operations (or nothing else can run). Everything else follows a sparse Bernoulli policy.
+    Aimed at windows that only matter if another thread gets a complete operation done inside them."""
+
+    def __init__(self, rng, n_threads, p_line, p_hot, k_max=160, need=1, late=None):
+        super().__init__(rng, p_line, p_hot)
+        self.victim = rng.randrange(n_threads)
+        self.k = rng.randint(1, k_max)
+        if late is not None:
+            # 'late' mode: park shortly before the end of one of the victim's operations (where results are published);
+            # late = (per-thread list of estimated cumulative hot-point counts at each operation's end, how far back)
+            ends, back = late
+            e = ends[self.victim]
+            if e:
+                self.k = max(1, e[rng.randrange(len(e))] - back)
+        self.need = need
+        self.seen = 0
+        self.held = None          # [thread idx, operations completed by others since]
+        self.fired = False
+
+    def start(self, sched):
+        super().start(sched)
+        sched.next_at[2] = 1      # look at every hot point until the victim has been parked
+        sched.next_at[5] = 1
+
+    def _others(self, sched, t):
+        h = self.held[0] if self.held else -1
+        return [x for x in sched.threads if x.state == RUNNABLE and x is not t and x.idx != h]
+
+    def pick(self, sched, t, cls):
+        if self.held is not None and cls == 3 and sched.last_code_h == 9002 and t.idx != self.held[0]:
+            self.held[1] += 1
+            if self.held[1] >= self.need:
+                v = sched.threads[self.held[0]]
+                self.held = None
+                self.arm(sched, cls)
+                if v.state == RUNNABLE:
+                    return v               # the parked thread resumes right after the other operation completed
+        if not self.fired and cls in (2, 5) and t.idx == self.victim:
+            self.seen += 1
+            if self.seen >= self.k:
+                self.fired = True
+                self.arm(sched, 2)
+                self.arm(sched, 5)
+                others = self._others(sched, t)
+                if others:
+                    self.held = [t.idx, 0]
+                    sched.stats["parked"] = sched.stats.get("parked", 0) + 1
+                    return others[self.rng.randrange(len(others))]
+                return None
+            sched.next_at[cls] = sched.cnt[cls] + 1
+            return None
+        if not self.fired and cls in (2, 5):
+            # not the victim: decide by the sparse policy but keep looking at every hot point
+            sched.next_at[cls] = sched.cnt[cls] + 1
+            if self.rng.random() >= self.p[cls]:
+                return None
+        else:
+            self.arm(sched, cls)
+        others = self._others(sched, t)
+        if not others:
+            return None
+        return others[self.rng.randrange(len(others))]
+
+    def pick_forced(self, sched, runnable):
+        h = self.held[0] if self.held else -1
+        free = [x for x in runnable if x.idx != h]
+        if not free:
+            self.held = None              # nothing else can run: the parked thread goes on
+            free = runnable
+        return free[self.rng.randrange(len(free))]
 
 
 class PCTChooser:
@@ -325,6 +414,7 @@ class PCTChooser:
         sched.next_at[2] = INF
         sched.next_at[3] = 1
         sched.next_at[4] = 1
+        sched.next_at[5] = INF
 
     def pick(self, sched, t, cls):
         if cls == 1:
@@ -359,7 +449,7 @@ class ReplayChooser:
             self.by_thread.setdefault(d[0], {})[d[1]] = d[2]
 
     def start(self, sched):
-        for cls in (1, 2, 3, 4):
+        for cls in (1, 2, 3, 4, 5):
             sched.next_at[cls] = INF
         for t in sched.threads:
             t.replay = self.by_thread.get(t.idx, {})
@@ -424,8 +514,9 @@ class Scheduler:
         self.main_gate.acquire()
         self.stats = {}
         self.hot_points = 0
-        self.cnt = [0, 0, 0, 0, 0]
-        self.next_at = [INF, INF, INF, INF, INF]
+        self.cnt = [0, 0, 0, 0, 0, 0]
+        self.next_at = [INF, INF, INF, INF, INF, INF]
+        self.last_code_h = 0
         self.fair_at = FAIRNESS_BOUND
 
     # -- called on the simulated threads ----------------------------------------
@@ -437,10 +528,12 @@ class Scheduler:
         step = self.step = self.step + 1
         n = t.ycount = t.ycount + 1
         self.digest = hash((self.digest, t.idx, code_h, pos))
-        if cls == 2:
+        if cls == 2 or cls == 5:
             self.hot_points += 1
             if self.merge_hot:
                 cls = 1
+        elif cls == 3:
+            self.last_code_h = code_h
         c = self.cnt[cls] = self.cnt[cls] + 1
         if self.is_replay:
             if n not in t.replay:
@@ -579,10 +672,18 @@ class Scheduler:
                 yp(t, 1, classify(frame.f_code)[1], frame.f_lasti)
             return local_line
 
+        def local_gen(frame, event, arg):
+            if event == "line":
+                yp(t, 5, classify(frame.f_code)[1], frame.f_lasti)
+            return local_gen
+
         def global_trace(frame, event, arg):
             # class 2 frames are pre-empted per instruction through sys.monitoring (install_hot_instrumentation)
-            if classify(frame.f_code)[0] == 1:
+            c = classify(frame.f_code)[0]
+            if c == 1:
                 return local_line
+            if c == 5:
+                return local_gen
             return None
 
         return global_trace
